@@ -202,7 +202,9 @@ def enumerate_cells(tier, seed):
             for ow in (False, True):
                 # format given: one destination name drawn from the registered and two neutral extensions;
                 # format inferred: every extension registered for writing
-                for how, ext in [('given', prng.choice(WRITE_EXTS[fmt] + NEUTRAL_EXTS))] + [('inferred', e) for e in WRITE_EXTS[fmt]]:
+                # (a text destination may also carry a compressed file's name: the text writers never compress, and readers go by content;
+                # astropy's FITS writer does compress by name, which would only double-compress the harness's own gzip copies)
+                for how, ext in [('given', prng.choice(WRITE_EXTS[fmt] + NEUTRAL_EXTS + ([WRITE_EXTS[fmt][0] + '.gz'] if fmt != 'fits' else [])))] + [('inferred', e) for e in WRITE_EXTS[fmt]]:
                     cells.append({'lane': f'{fmt}:{api}:{dest}:{"overwrite" if ow else "no-overwrite"}', 'exhaustive': True, 'cell': len(cells),
                                   'fmt': fmt, 'api': api, 'dest': dest, 'ow': ow, 'how': how, 'ext': ext,
                                   'list': regs, 'kw': kw, 'inject': label})
